@@ -259,7 +259,7 @@ def run(ctx):
     drift = []
     rej = collections.Counter()
     if "model-build" not in ctx["broken"]:
-        sub = list(range(0, len(cases) - len(auto2), 3 if tier == "quick" else 11))
+        sub = list(range(0, len(cases) - len(auto2), 3 if tier == "quick" else 1))
         mres = Model().run([case_model(cases[i]) for i in sub])
         for i, m in zip(sub, mres):
             if "bad" in m:
